@@ -84,6 +84,26 @@ extern "C" int future_one()
   return 0;
 }
 
+// a Future on the heap that is deleted as soon as its result has been taken: nothing may touch it afterwards
+extern "C" int future_heap()
+{
+  {
+    for(unsigned i = 0; i < 4; ++i) g_ran[i] = g_done[i] = 0;
+    Future<int>* f = new Future<int>;
+    f->start(&work, 3);
+    int r = *f;                                  // result conversion waits for completion
+    vf_assert(r == 7 && g_done[3] == 1, "the result conversion returns only after the call has completed");
+    delete f;
+    Future<int> g;                               // gives the worker time to finish whatever it was doing
+    g.start(&work, 1);
+    g.join();
+    vf_assert(g_done[1] == 1, "second call executed");
+  }
+  destroyPool();
+  vf_reach("end");
+  return 0;
+}
+
 static uint client(void* arg)
 {
   Future<int> f;
